@@ -13,6 +13,7 @@ class ChoiceRNG:
         self.ctx = ctx
         self.weighted = weighted
         self.p_records = []  # (n, size, p-vector as float64 numpy)
+        self.replace_flags = []  # the replace= argument of every choice() call
         self.uniform_menu = None  # callable(size) -> list of candidate arrays
         self.max_enumerated = None  # after this many choice() calls the most probable index is returned
 
@@ -23,6 +24,7 @@ class ChoiceRNG:
         else:
             pv = np.asarray(p, dtype=np.float64)
         self.p_records.append((n, size, pv.copy()))
+        self.replace_flags.append(bool(replace))
         k = 1 if size is None else int(size)
         idx = []
         for j in range(k):
